@@ -50,7 +50,7 @@ fn check_date(n: i64, cfg: &Cfg, log: &mut Log) {
     }
     // neighbours
     let mut rng = Rng::new(mix(cfg.seed, n as u64));
-    let partners = cfg.tier.pick(1, 10);
+    let partners = cfg.tier.pick(1, 30);
     let mut others: Vec<i64> = vec![];
     if n > FIRST {
       others.push(n - 1);
@@ -305,7 +305,7 @@ pub fn run(cfg: &Cfg) -> (Log, Meta) {
   years.extend_from_slice(&[0, -1, -4, 10000, 10001]);
   log.merge(par_range(years.len(), 64, |i, l| check_triples(years[i], l)));
   log.merge(par_range(9999, 256, |i, l| check_year(i as i64 + 1, l)));
-  let nh = cfg.tier.pick(40_000usize, 1_000_000usize);
+  let nh = cfg.tier.pick(40_000usize, 5_000_000usize);
   log.merge(par_range(nh, 200, |i, l| history(i, cfg, l)));
   log.floor("history.answers_judged", cfg.tier.pick(300_000, 7_000_000));
   log.floor("date.boundary_dates", 100_000);
@@ -315,7 +315,7 @@ pub fn run(cfg: &Cfg) -> (Log, Meta) {
   log.floor("lengths.leap_years", 2000);
   let partners = match cfg.tier {
     Tier::Quick => 1,
-    Tier::Thorough => 10,
+    Tier::Thorough => 30,
   };
   let meta = Meta {
     rule: format!(
